@@ -756,3 +756,111 @@ Proof.
   pose proof (default_wf (cfg_opts c)) as W. cbn zeta in W.
   apply bound_general; auto; lia.
 Qed.
+
+(* ------------------------------------------------------------------ the collector is unobservable *)
+
+Definition not_gc (e : lev) : bool := match e with EvGc _ => false | _ => true end.
+
+Section GcUnobservable.
+  Variable o : opts.
+  Variable k : lim_addr.
+  Hypothesis Hrate : 0 < o_limit o.
+  Hypothesis Hburst : 0 <= o_burst o.
+
+  (* two states of key k that no future arrival can tell apart: the same tokens at every later time *)
+  Definition eqv (tau : Z) (s s' : option bucket) : Prop :=
+    wf o s tau /\ wf o s' tau /\ forall t, tau <= t -> cap o s t = cap o s' t.
+
+  Lemma eqv_mono tau tau' s s' : eqv tau s s' -> tau <= tau' -> eqv tau' s s'.
+  Proof.
+    intros (A & B & C) H. split; [eapply wf_mono; eauto|]. split; [eapply wf_mono; eauto|].
+    intros t T. apply C. lia.
+  Qed.
+
+  Lemma advance_capb b now : b_last b <= now -> lim_advance (o_limit o) (o_burst o) b now = capb o b now.
+  Proof. intros H. unfold lim_advance, capb. assert (now <? b_last b = false) as -> by lia. reflexivity. Qed.
+
+  (* the bucket an arrival at [now] works on, and what it sees in it *)
+  Definition the_bucket (s : option bucket) (now : Z) : bucket :=
+    match s with Some b => b | None => lim_fresh (o_burst o) now end.
+
+  Lemma the_bucket_adv s now : wf o s now ->
+    lim_advance (o_limit o) (o_burst o) (the_bucket s now) now = cap o s now.
+  Proof.
+    destruct s as [b|]; cbn [the_bucket cap].
+    - intros (A & B & C). apply advance_capb. lia.
+    - intros _. rewrite advance_capb by (cbn; lia). unfold capb, lim_fresh. cbn [b_tok b_last]. lia.
+  Qed.
+
+  Lemma cap_some_after b t : capb o b t = cap o (Some b) t.
+  Proof. reflexivity. Qed.
+
+  (* an arrival of key k at now >= tau: same decision, indistinguishable states *)
+  Lemma eqv_allow tau s s' now a n :
+    eqv tau s s' -> tau <= now -> addr_eqb (mask_addr o a) k = true ->
+    snd (kstep o k s (EvAllow now a n)) = snd (kstep o k s' (EvAllow now a n)) /\
+    eqv now (fst (kstep o k s (EvAllow now a n))) (fst (kstep o k s' (EvAllow now a n))).
+  Proof.
+    intros E T K. pose proof (eqv_mono tau now s s' E T) as (W & W' & C).
+    cbn [kstep]. rewrite K. cbn [fst snd]. fold (the_bucket s now) (the_bucket s' now).
+    unfold allow_bucket, lim_margin.
+    rewrite (the_bucket_adv s now W), (the_bucket_adv s' now W'), <- (C now (Z.le_refl _)).
+    destruct ((n <=? o_burst o) && (0 <? cap o s now - n * SCALE + o_limit o)) eqn:D; cbn [fst snd].
+    - split; [reflexivity|].
+      assert (wf o (Some (mkBucket (cap o s now - n * SCALE) now now)) now) as X by (cbn; unfold wfb; cbn; lia).
+      split; [exact X|]. split; [exact X|]. reflexivity.
+    - split; [reflexivity|].
+      assert (forall x, wf o x now -> wf o (Some (mkBucket (b_tok (the_bucket x now)) (b_last (the_bucket x now)) now)) now) as X.
+      { intros [b|]; cbn; unfold wfb; cbn; [intros (P & Q & R); lia|unfold SCALE; lia]. }
+      assert (forall x t, wf o x now -> now <= t ->
+                cap o (Some (mkBucket (b_tok (the_bucket x now)) (b_last (the_bucket x now)) now)) t = cap o x t) as Y.
+      { intros [b|] t Wx Tt; cbn [cap the_bucket]; unfold capb; cbn [b_tok b_last lim_fresh]; [reflexivity|].
+        assert (0 <= o_limit o * (t - now)) by (apply Z.mul_nonneg_nonneg; lia). lia. }
+      split; [now apply X|]. split; [now apply X|].
+      intros t Tt. rewrite (Y s t W Tt), (Y s' t W' Tt). apply C. exact Tt.
+  Qed.
+
+  (* a collector run at now >= tau changes nothing a later arrival could see *)
+  Lemma eqv_gc tau s s' now : eqv tau s s' -> tau <= now -> eqv now (gc_bucket o now s) s'.
+  Proof.
+    intros E0 T. pose proof (eqv_mono tau now s s' E0 T) as E. destruct s as [b|]; cbn [gc_bucket]; [|exact E].
+    destruct (lim_collect o now b) eqn:X; [|exact E].
+    destruct E as (W & W' & C). split; [exact I|]. split; [exact W'|].
+    intros t Tt. rewrite <- (C t Tt). cbn [cap].
+    unfold lim_collect, lim_full in X. destruct W as (P & Q & R).
+    rewrite advance_capb in X by lia. unfold capb in *.
+    assert (o_limit o * (now - b_last b) <= o_limit o * (t - b_last b)) by (apply Z.mul_le_mono_nonneg_l; lia).
+    lia.
+  Qed.
+
+  Lemma kdec_gc_free h : forall tau s s', lim_sorted_from tau h = true -> eqv tau s s' ->
+    kdec o k s h = kdec o k s' (filter not_gc h).
+  Proof.
+    induction h as [|e h IH]; intros tau s s' S E; [reflexivity|].
+    cbn in S. apply andb_true_iff in S. destruct S as [S1 S2]. apply Z.leb_le in S1.
+    destruct e as [now a n|now]; cbn [filter not_gc ev_time] in *.
+    - destruct (addr_eqb (mask_addr o a) k) eqn:K.
+      + destruct (eqv_allow tau s s' now a n E S1 K) as [D E'].
+        cbn [kdec]. rewrite <- D.
+        destruct (snd (kstep o k s (EvAllow now a n))); [f_equal|]; apply (IH now); auto.
+      + cbn [kdec]. rewrite !(kstep_untouched o k _ (EvAllow now a n)) by (cbn; exact K). cbn [fst snd].
+        apply (IH now); [exact S2|]. exact (eqv_mono tau now s s' E S1).
+    - cbn [kdec kstep fst snd]. apply (IH now); [exact S2|]. exact (eqv_gc tau s s' now E S1).
+  Qed.
+End GcUnobservable.
+
+Lemma touches_filter_not_gc o k h :
+  lim_decisions_for o k (filter not_gc h) (lim_decisions o [] (filter not_gc h)) = kdec o k None (filter not_gc h).
+Proof. rewrite decisions_for_kdec by apply nodup_nil. reflexivity. Qed.
+
+(* the decisions taken for any subnet are the decisions taken when the collector never runs *)
+Lemma gc_unobservable o k h : 0 < o_limit o -> 0 <= o_burst o -> lim_sorted h = true ->
+  lim_decisions_for o k h (lim_decisions o [] h) =
+  lim_decisions_for o k (filter not_gc h) (lim_decisions o [] (filter not_gc h)).
+Proof.
+  intros R B S. rewrite touches_filter_not_gc, decisions_for_kdec by apply nodup_nil. cbn [lim_lookup].
+  destruct h as [|e h]; [reflexivity|].
+  apply (kdec_gc_free o k R B (e :: h) (ev_time e)).
+  - apply (sorted_sorted_from (e :: h) S).
+  - split; [exact I|]. split; [exact I|]. reflexivity.
+Qed.
